@@ -170,6 +170,15 @@ def run_case(case, ctx):
             r = ctx.call(noexc, A.join, B)
             ctx.check("C12.cms_join", bytes(A) == bytes(S), lambda: f"join result {bytes(A).hex()} != single-stream sketch {bytes(S).hex()}")
             ctx.check("C12.cms_join", bytes(B) == bb, "join modified its argument")
+            # both sketches stay in use: a later update of one must not show in the other
+            ja = bytes(A)
+            B.add(pool[0], 2)
+            ctx.check("C12.cms_join", bytes(A) == ja, "adding to the ARGUMENT after the join changed the receiver (shared counters)")
+            jb = bytes(B)
+            A.add(pool[-1], 1)
+            ctx.check("C12.cms_join", bytes(B) == jb, "adding to the RECEIVER after the join changed the argument (shared counters)")
+            A.remove(pool[-1], 1)
+            B.remove(pool[0], 2)
             ctx.check("C12.cms_join", A.elements_added == S.elements_added == sum(ta.values()) + sum(tb.values()), "element total after join")
             A.query_type = "min"
             for i, k in enumerate(pool):
